@@ -625,7 +625,7 @@ func runC11(c *h.Ctx) {
 	g.C.Datetime = true
 	g.C.KeyValue = false // ids are address-derived; two evaluations of p would not be comparable
 	dc := gen.DefaultDocCfg()
-	n := c.PerShard(c.N(100000, 1000000))
+	n := c.PerShard(c.N(70000, 1000000))
 	for i := 0; i < n; i++ {
 		lax := r.IntN(2) == 0
 		p := g.Pred(2, false, false)
@@ -652,6 +652,17 @@ func runC11(c *h.Ctx) {
 		e.judge("law.and", qt+" && "+pt, expectBin("&&", b, a), h.F("left", tvName(b), "right", tvName(a), "kind", "law"))
 		e.judge("law.or", pt+" || "+qt, expectBin("||", a, b), ft)
 		e.judge("law.or", qt+" || "+pt, expectBin("||", b, a), h.F("left", tvName(b), "right", tvName(a), "kind", "law"))
+		// a condition combined with itself and with its own negation: Kleene
+		// logic has no excluded middle (p || !p is unknown when p is), and
+		// evaluating p twice gives p twice
+		if !ep {
+			self := h.F("operand", tvName(a), "kind", "self")
+			e.judge("law.and", pt+" && "+pt, outcomeSet{vals: map[model.Tri]bool{tp: true}}, self)
+			e.judge("law.or", pt+" || "+pt, outcomeSet{vals: map[model.Tri]bool{tp: true}}, self)
+			e.judge("law.or", pt+" || !"+pt, outcomeSet{vals: map[model.Tri]bool{model.Or(tp, model.Not(tp)): true}}, self)
+			e.judge("law.and", pt+" && !"+pt, outcomeSet{vals: map[model.Tri]bool{model.And(tp, model.Not(tp)): true}}, self)
+			e.judge("law.and", "!"+pt+" && "+pt, outcomeSet{vals: map[model.Tri]bool{model.And(tp, model.Not(tp)): true}}, self)
+		}
 		// double negation
 		exp := outcomeSet{vals: map[model.Tri]bool{tp: true}}
 		if ep {
